@@ -137,7 +137,7 @@ theorem ext_addEntry {up : Char → List Char} {slots : List (List Nat)} {ch : L
     (hnz : ∀ x ∈ units, x ≠ 0) (hsfn : slotClass sfn = .file) (hkind : Lfn.isDir sfn = child.isDir) :
     Ext up (.dir slots ch) (addEntry units sfn child (.dir slots ch)) := by
   obtain ⟨hd', hsub, hnew, hnotin⟩ := addEntry_dirOk hd units sfn child hwf' h1 h255 hu hnz hsfn hkind
-  refine ⟨_, _, addEntry_dir units sfn child slots ch, ?_⟩
+  refine ⟨_, _, addEntry_dir hd.wf.shape units sfn child ch h1 h255 hu hnz hsfn, ?_⟩
   intro q x hx hq
   obtain ⟨_, hxm, hxl, hxq⟩ := lookupS_some hd hx
   have hxl' := hsub x.1 hxl
